@@ -774,6 +774,44 @@ fn exec(case: &W3Case, ctx: &mut Ctx) {
             ctx.evals += case.probes.len() as u64;
         }
     }
+    // C12: exhaustive over (limit, level) for small trees — every pair of a grid is applied to a fresh clone of the
+    // never-cached twin and compared with it
+    if check_twin && model.entries.len() <= 8 && !model.entries.is_empty() && case.order_seed % (if ctx.tier == Tier::Quick { 12 } else { 3 }) == 0 {
+        let res = guard(ctx, "cache(limit, level) grid on clones", || {
+            let mut n = 0u64;
+            for limit in 0..=6u64 {
+                for level in [None, Some(0u64), Some(1), Some(2), Some(3), Some(4)] {
+                    let mut c = twin.clone_tree();
+                    let left = c.cache(limit, level);
+                    if left > limit {
+                        return Err(format!("cache({limit}, {level:?}) returned {left}"));
+                    }
+                    // a second warm-up with what is left must not change anything either
+                    let _ = c.cache(left, level);
+                    for s in &case.probes {
+                        n += 1;
+                        let a = c.find(s);
+                        let b = twin.find(s);
+                        if a != b {
+                            return Err(format!("after cache({limit}, {level:?}) on a clone: find({s:?}) = {a:?}, uncached = {b:?}"));
+                        }
+                    }
+                }
+            }
+            Ok(n)
+        });
+        match res {
+            None => return,
+            Some(Err(why)) => {
+                ctx.fail("cached!=uncached", format!("(limit, level) grid: {why}"));
+                return;
+            }
+            Some(Ok(n)) => {
+                ctx.evals += n;
+                ctx.probe("trees_with_exhaustive_limit_level_grid");
+            }
+        }
+    }
     if max_live_patterns >= 3 {
         ctx.fingerprint(fnv1a(serde_json::to_string(&(&case.patterns, &case.ops, case.ignore_case, case.unique)).unwrap().as_bytes()));
     }
